@@ -138,6 +138,7 @@ func GenWS(t *rapid.T, p Profile) WS {
 		case 5:
 			tg.Bin = fmt.Sprintf("bin/%s.sh", tg.Name)
 		}
+		tg.InPlace = len(tg.OutFiles) > 0 && rapid.IntRange(0, 2).Draw(t, "inplace") == 0
 		for j := 0; j < i; j++ {
 			if rapid.IntRange(0, 99).Draw(t, "edge") < 35 {
 				l := w.Targets[j].Label()
@@ -252,7 +253,15 @@ func GenHistory(t *rapid.T, p Profile) History {
 			if k == "edit-content" {
 				back = Step{Kind: "restore-content", T: s.T, F: s.F}
 			}
-			h.Steps = append(h.Steps, Step{Kind: "build", Build: genBuild(t, p, h.WS)}, back, Step{Kind: "build", Build: genBuild(t, p, h.WS)})
+			h.Steps = append(h.Steps, Step{Kind: "build", Build: genBuild(t, p, h.WS)}, back)
+			if p.Minimal && rapid.IntRange(0, 2).Draw(t, "back-under-minimal") == 0 {
+				// back at S1 the edited target is a (skipped) cache hit whose product in the workspace is still S2's: whatever
+				// has to run on top of it under load_outputs=minimal must see S1's, and so must the default build afterwards
+				h.Steps = append(h.Steps, Step{Kind: "bump-nonce", T: rapid.IntRange(0, 7).Draw(t, "t-above")},
+					Step{Kind: "build", Build: &BuildOpts{Patterns: []string{"//..."}, LoadOutputs: "minimal"}}, Step{Kind: "build", Build: &BuildOpts{Patterns: []string{"//..."}}})
+			} else {
+				h.Steps = append(h.Steps, Step{Kind: "build", Build: genBuild(t, p, h.WS)})
+			}
 		}
 	}
 	// histories end with a build so that the last edits are observed
